@@ -123,6 +123,13 @@ func (mq *MessageQueue) AllocateAndBuildMessage(size uint64, buildMessageFn func
 func (mq *MessageQueue) buildMessage(size uint64, buildMessageFn func(*Builder)) (nonEmpty bool, added uint64) {
 	mq.buildersLk.Lock()
 	defer mq.buildersLk.Unlock()
+	select {
+	case <-mq.done:
+		// the queue has been shut down: anything queued now would never be sent or
+		// reported, and its reservation never released
+		return false, 0
+	default:
+	}
 	if shouldBeginNewResponse(mq.builders, size) {
 		topic := mq.nextBuilderTopic
 		mq.nextBuilderTopic++
@@ -172,23 +179,21 @@ func (mq *MessageQueue) runQueue() {
 		case <-mq.outgoingWork:
 			mq.sendMessage()
 		case <-mq.done:
-			select {
-			case <-mq.outgoingWork:
-				for {
-					_, metadata, err := mq.extractOutgoingMessage()
-					if err == nil {
-						span := trace.SpanFromContext(metadata.ctx)
-						err := fmt.Errorf("message queue shutdown")
-						span.RecordError(err)
-						span.SetStatus(codes.Error, err.Error())
-						span.End()
-						mq.publishError(metadata, err)
-						mq.eventPublisher.Close(metadata.topic)
-					} else {
-						break
-					}
+			// report whatever is still queued as failed, whether or not its work
+			// signal has been seen yet: nothing is added once done is closed
+			for {
+				_, metadata, err := mq.extractOutgoingMessage()
+				if err == nil {
+					span := trace.SpanFromContext(metadata.ctx)
+					err := fmt.Errorf("message queue shutdown")
+					span.RecordError(err)
+					span.SetStatus(codes.Error, err.Error())
+					span.End()
+					mq.publishError(metadata, err)
+					mq.eventPublisher.Close(metadata.topic)
+				} else {
+					break
 				}
-			default:
 			}
 			if mq.sender != nil {
 				mq.sender.Close()
